@@ -1264,7 +1264,9 @@ impl<'a> FieldEntry<'a> {
     }
     fn make_ident(&self, prefix: &str) -> Ident {
         if let Some(ident) = &self.field.ident {
-            format_ident!("{}_{}", prefix, ident)
+            // Not the span of the user's field name: lints would treat the name as written by the user.
+            let span = Span::call_site().located_at(ident.span());
+            format_ident!("{}_{}", prefix, ident, span = span)
         } else {
             format_ident!("{}_{}", prefix, self.index)
         }
